@@ -16,14 +16,14 @@ type Problem struct {
 
 // Cover are coverage facts of one scenario.
 type Cover struct {
-	Commits, Destroys, Retries                                    int
-	TeardownReady, TeardownNotReady, TadOK, TadErr, TadBlocked    int
-	WatchForOK, WatchForBlocked, CtxCancelled, CtxLive            int
-	WinFinRemovedBetweenMarkAndWatch, WinThirdPartyDestroy        int
-	WinPendingAtDestroy                                           int
-	UwcIdem                                                        int
+	Commits, Destroys, Retries                                      int
+	TeardownReady, TeardownNotReady, TadOK, TadErr, TadBlocked      int
+	WatchForOK, WatchForBlocked, CtxCancelled, CtxLive              int
+	WinFinRemovedBetweenMarkAndWatch, WinThirdPartyDestroy          int
+	WinPendingAtDestroy                                             int
+	UwcIdem                                                         int
 	UwcOK, UwcNoop, UwcErr, ModifyCreate, ModifyUpdate, ErrNoEffect int
-	OwnerConflicts, PhaseConflicts, CtxAmbiguous, ABA             int
+	OwnerConflicts, PhaseConflicts, CtxAmbiguous, ABA               int
 }
 
 func key(id string) gp.Key { return gp.Key{NS: "ns", Type: "As.verif.cosi.dev", ID: id} }
@@ -585,7 +585,9 @@ func CheckC04(o *Outcome) ([]Problem, Cover) {
 				switch len(mine) {
 				case 0:
 					// nothing written: the change was there already - in a value that also satisfies the caller's expected phase
-					if !inInterval(func(s *gp.Snap) bool { return s != nil && slices.Contains(s.Fins, IdemFinalizer) && phaseOK(c.Phase, s) }) {
+					if !inInterval(func(s *gp.Snap) bool {
+						return s != nil && slices.Contains(s.Fins, IdemFinalizer) && phaseOK(c.Phase, s)
+					}) {
 						bad(c, "phase-conflict-retried-into-success", "%s (idempotent change, nothing written) expecting phase %s succeeded, but %s never had the change while in that phase during the call [%d,%d]",
 							c.Op, c.Phase, c.ID, c.CallSeq, ret)
 					}
